@@ -179,7 +179,7 @@ def structural_twins(pm: pyexec.PyModel, names: xschema.Names, root: ET.Element,
 
 # --------------------------------------------------------------------------- per model
 def check_model(chk: harness.Check, name: str, text: str, rng: Any, n_instances: int,
-                max_sites: int, deadline: float = float("inf")) -> None:
+                max_sites: int, pace: Optional[xschema.Pace] = None) -> None:
     base = {"model": name, "text": text}
     try:
         pm = pyexec.PyModel(text)
@@ -216,7 +216,7 @@ def check_model(chk: harness.Check, name: str, text: str, rng: Any, n_instances:
             chk.count("models_without_instantiable_class")
             return
         for i in range(n_instances):
-            if chk.elapsed() > deadline:
+            if pace is not None and pace.over():
                 chk.count("instances_skipped_for_budget", n_instances - i)
                 break
             cls = classes[i % len(classes)]
@@ -400,16 +400,11 @@ def check_pattern(chk: harness.Check, lab: xschema.PatternLab, writer: SdkWriter
                 chk.count("acceptances_not_confirmed_by_xmllint")
                 chk.hist("validator_disagreements", "non-member: xmlschema accepts / xmllint rejects: " + rg.skeleton(pattern))
                 return
-            minimal = None
-            if shrinks_left[0] > 0:
-                shrinks_left[0] -= 1
-                minimal = xschema.shrink_disagreement(pattern, "accepts-non-member", rng)
+            may_shrink = shrinks_left[0] > 0
+            mechanism, minimal = xschema.explain_disagreement(pattern, "accepts-non-member", rng, may_shrink)
             if minimal is not None:
-                cause = xschema.cause_of(minimal)
-                key = "pattern-accepts-non-member/" + (cause or "minimal:" + rg.skeleton(minimal))
-            else:
-                cause = xschema.cause_of(pattern)
-                key = "pattern-accepts-non-member/" + (cause or "not-minimised")
+                shrinks_left[0] -= 1
+            key = "pattern-accepts-non-member/" + mechanism
             chk.violation(
                 key,
                 dict(base, string=s, python_re_match=False, xsd_accepts=verdicts,
@@ -422,21 +417,38 @@ def check_pattern(chk: harness.Check, lab: xschema.PatternLab, writer: SdkWriter
 
 
 # --------------------------------------------------------------------------- driver
+MINIMA = {
+    "valid_base_documents": (120, 600),
+    "constraint_twins_validated": (300, 1500),
+    "structural_twins_validated": (300, 1500),
+    "pattern_non_member_documents_validated": (400, 2000),
+}
+
+
 def worker(args) -> Dict[str, Any]:
     argv, shard, n_shards, n_models, n_instances, n_patterns, n_strings, t0 = args
     chk = harness.Check("C14", "exploration", RULE, argv)
     chk.t0 = t0  # budgets count from the start of the parent, warm-up included
     budget = chk.wall_budget(150, 780)
+    mine = {name: xschema.share(chk.pick(*pair), n_shards) for name, pair in MINIMA.items()}
+    pattern_pace = xschema.Pace(
+        chk, budget * 0.4, budget * 1.5,
+        {"pattern_non_member_documents_validated": mine["pattern_non_member_documents_validated"]},
+    )
+    model_pace = xschema.Pace(
+        chk, budget, budget * 3.0,
+        {k: v for k, v in mine.items() if k != "pattern_non_member_documents_validated"},
+    )
     try:
         lab = xschema.PatternLab()
         writer = SdkWriter()
         try:
             patterns = c13.pattern_workload(chk, n_patterns)
             shrinks_left = [chk.pick(5, 15)]
-            mine = patterns[shard::n_shards]
-            for idx, (source, pattern) in enumerate(mine):
-                if chk.elapsed() > budget * 0.4:
-                    chk.count("patterns_skipped_for_budget", len(mine) - idx)
+            my_patterns = patterns[shard::n_shards]
+            for idx, (source, pattern) in enumerate(my_patterns):
+                if pattern_pace.over():
+                    chk.count("patterns_skipped_for_budget", len(my_patterns) - idx)
                     break
                 check_pattern(chk, lab, writer, source, pattern,
                               chk.rng("strings", source, pattern), n_strings, shrinks_left)
@@ -452,18 +464,18 @@ def worker(args) -> Dict[str, Any]:
                 chk.hist("mmg_features", k, v)
         models: List[Tuple[str, str]] = []
         while mmg or extra:
-            if mmg:
-                models.append(mmg.pop(0))
-            if mmg:
-                models.append(mmg.pop(0))
             if extra:
                 models.append(extra.pop(0))
+            if mmg:
+                models.append(mmg.pop(0))
+            if mmg:
+                models.append(mmg.pop(0))
         for idx, (name, text) in enumerate(models):
-            if chk.elapsed() > budget:
+            if model_pace.over():
                 chk.count("models_skipped_for_budget", len(models) - idx)
                 break
             check_model(chk, name, text, chk.rng("inst", name), n_instances,
-                        max_sites=chk.pick(8, 16), deadline=budget)
+                        max_sites=chk.pick(8, 16), pace=model_pace)
     except Exception:  # noqa
         chk.harness_error("worker failed: " + traceback.format_exc()[-1500:])
     return chk.export()
@@ -487,10 +499,8 @@ def main(argv) -> int:
                 chk.merge(job.result())
             except Exception as err:
                 chk.harness_error(f"worker failed: {err!r}")
-    chk.require_min("valid_base_documents", chk.pick(120, 600))
-    chk.require_min("constraint_twins_validated", chk.pick(300, 1500))
-    chk.require_min("structural_twins_validated", chk.pick(300, 1500))
-    chk.require_min("pattern_non_member_documents_validated", chk.pick(400, 2000))
+    for name, pair in MINIMA.items():
+        chk.require_min(name, chk.pick(*pair))
     chk.assume("a constraint is expected only if the property's own class (or a constrained primitive it uses) states it as len(self.p) <op> K / K <op> len(self.p) / matches_x(self.p), optionally guarded on the same property; Python confirms each twin violates that invariant")
     chk.assume("tightenings that descendants apply to inherited properties, set-membership and numeric invariants are not expected to be enforced")
     chk.assume("patterns with anchors other than the outer ^...$ are not part of the workload; strings are XML 1.0 characters without line breaks")
